@@ -11,7 +11,9 @@ package main
 import (
 	"bufio"
 	"fmt"
+	"math"
 	"os"
+	"strings"
 
 	"github.com/ctessum/geom"
 
@@ -331,66 +333,209 @@ func gen(seed uint64, tier string) {
 		emit(c.l, c.p)
 		emit(geom.MultiLineString{c.l}, c.p)
 	}
+	// dyadic scale families of the TestClip figure (absolute thresholds) and corner nicks
+	for _, k := range []int{-10, -20, -24, -30, 20} {
+		f := math.Ldexp(1, k)
+		emit(shapes.ScaleGeom(tc, f), shapes.ScaleGeom(sq, f))
+		emit(shapes.ScaleGeom(geom.MultiLineString{tc}, f), shapes.ScaleGeom(sq, f))
+	}
+	nicks(r, emit)
+	longLines(r, emit)
 	for i := 0; i < n; i++ {
 		kind := kinds[i%3]
-		style0 := styleCycle[(i/3)%len(styleCycle)]
-		var P0 shapes.Shape
-		if style0 == 7 {
-			P0 = notchyShape(r, kind)
-		} else {
-			P0 = shapes.GenShape(r, kind, true)
-		}
-		P := P0.Scale(2, 1, 1)
-		dx, dy := 2*int64(r.Range(-4, 4)), 2*int64(r.Range(-4, 4))
-		P = P.Translate(dx, dy)
-		rs := P.Rings()
-		mn, mx, _ := P.BBox()
 		style := styleCycle[(i/3)%len(styleCycle)]
-		members := 1
 		multi := (i/45)%2 == 1
-		if multi {
-			members = r.Range(1, 4)
+		P := placedShape(r, kind, style)
+		l := makeLine(r, P, style, multi)
+		f := scaleFor(r)
+		emit(shapes.ScaleGeom(l, f), shapes.ScaleGeom(P.ToGeom(2, r.Intn(5) != 0), f))
+	}
+	// histories: the SAME polygon object, its coordinates overwritten in place between calls
+	nh := n / 40
+	for h := 0; h < nh; h++ {
+		kind := kinds[h%3]
+		P0 := shapes.GenShape(r, kind, true)
+		if h%2 == 0 && kind != "B" {
+			P0 = notchyShape(r, kind)
 		}
-		var paths [][]ipt
-		for m := 0; m < members; m++ {
-			st := style
-			if m > 0 {
-				st = r.Intn(8)
+		closed := r.Intn(5) != 0
+		steps := r.Range(2, 4)
+		var sb strings.Builder
+		sb.WriteString("hclip")
+		for k := 0; k < steps; k++ {
+			// slide and dilate: every version has the same ring and vertex counts
+			P := P0.Scale(2*int64(r.Range(1, 3)), 1+2*int64(r.Range(-6, 6)), 1+2*int64(r.Range(-6, 6)))
+			style := styleCycle[r.Intn(len(styleCycle))]
+			if style == 7 && (kind == "B" || h%2 != 0) {
+				style = 0
 			}
-			for try := 0; try < 12; try++ {
-				p := genPath(r, st, rs, mn, mx)
-				if len(p) < 2 || !gpPath(p, rs) {
-					continue
-				}
-				clash := false
-				for _, q := range paths {
-					if pathsMeet(p, q) {
-						clash = true
-					}
-				}
-				if !clash {
-					paths = append(paths, p)
-					break
-				}
+			l := makeLine(r, P, style, (h/3)%2 == 1)
+			if k > 0 {
+				sb.WriteString(" ;;")
 			}
+			fmt.Fprintf(&sb, " %s | %s", vproto.GeomToks(l), vproto.GeomToks(P.ToGeom(2, closed)))
 		}
-		if len(paths) == 0 {
-			paths = [][]ipt{{{X: mn.X - 4 - (mn.X-4)%2 - 2, Y: mn.Y - mn.Y%2}, {X: mx.X + 4 - (mx.X+4)%2 + 2, Y: mn.Y - mn.Y%2 + 2}}}
-			if !gpPath(paths[0], rs) {
-				paths[0][1].Y += 2
-			}
+		fmt.Fprintln(out, sb.String())
+	}
+}
+
+// scaleFor picks the coordinate scale of a case: mostly 1, otherwise a power of two.
+func scaleFor(r *vproto.Rng) float64 {
+	switch r.Intn(10) {
+	case 0:
+		return math.Ldexp(1, -20)
+	case 1:
+		return math.Ldexp(1, -24)
+	case 2:
+		return math.Ldexp(1, -30)
+	case 3:
+		return math.Ldexp(1, 20)
+	}
+	return 1
+}
+
+// placedShape generates the polygonal operand (doubled coordinates, odd).
+func placedShape(r *vproto.Rng, kind string, style int) shapes.Shape {
+	var P0 shapes.Shape
+	if style == 7 {
+		P0 = notchyShape(r, kind)
+	} else {
+		P0 = shapes.GenShape(r, kind, true)
+	}
+	return P0.Scale(2, 1, 1).Translate(2*int64(r.Range(-4, 4)), 2*int64(r.Range(-4, 4)))
+}
+
+// makeLine generates a simple line / multi-line string in general position w.r.t. P.
+func makeLine(r *vproto.Rng, P shapes.Shape, style int, multi bool) geom.Geom {
+	rs := P.Rings()
+	mn, mx, _ := P.BBox()
+	members := 1
+	if multi {
+		members = r.Range(1, 4)
+	}
+	var paths [][]ipt
+	for m := 0; m < members; m++ {
+		st := style
+		if m > 0 {
+			st = r.Intn(8)
 		}
-		pg := P.ToGeom(2, r.Intn(5) != 0)
-		if multi {
-			ml := geom.MultiLineString{}
-			for _, p := range paths {
-				ml = append(ml, toLS(p))
+		for try := 0; try < 12; try++ {
+			p := genPath(r, st, rs, mn, mx)
+			if len(p) < 2 || !gpPath(p, rs) {
+				continue
 			}
-			emit(ml, pg)
-		} else {
-			emit(toLS(paths[0]), pg)
+			clash := false
+			for _, q := range paths {
+				if pathsMeet(p, q) {
+					clash = true
+				}
+			}
+			if !clash {
+				paths = append(paths, p)
+				break
+			}
 		}
 	}
+	if len(paths) == 0 {
+		paths = [][]ipt{{{X: mn.X - 4 - (mn.X-4)%2 - 2, Y: mn.Y - mn.Y%2}, {X: mx.X + 4 - (mx.X+4)%2 + 2, Y: mn.Y - mn.Y%2 + 2}}}
+		if !gpPath(paths[0], rs) {
+			paths[0][1].Y += 2
+		}
+	}
+	if multi {
+		ml := geom.MultiLineString{}
+		for _, p := range paths {
+			ml = append(ml, toLS(p))
+		}
+		return ml
+	}
+	return toLS(paths[0])
+}
+
+// nicks: at ordinary scale, a diagonal that only cuts d off a corner of a rectangle (chord d*sqrt 2,
+// d = 2^-21 .. 2^-25), for each corner, as LS and MLS, against PG / B / MPG.
+func nicks(r *vproto.Rng, emit func(l geom.Geom, p geom.Geom)) {
+	for c := 0; c < 8; c++ {
+		x0, y0 := float64(r.Range(-5, 5))+0.5, float64(r.Range(-5, 5))+0.5
+		x1, y1 := x0+float64(r.Range(2, 6)), y0+float64(r.Range(2, 6))
+		d := math.Ldexp(1, -r.Range(21, 25))
+		var a, b geom.Point
+		switch c % 4 {
+		case 0: // corner (x1, y0): enters through the bottom edge at x1-d, leaves through the right edge at y0+d
+			a, b = geom.Point{X: x1 - d - 1, Y: y0 - 1}, geom.Point{X: x1 - d + 1, Y: y0 + 1}
+		case 1: // corner (x0, y0)
+			a, b = geom.Point{X: x0 + d + 1, Y: y0 - 1}, geom.Point{X: x0 + d - 1, Y: y0 + 1}
+		case 2: // corner (x1, y1)
+			a, b = geom.Point{X: x1 - d - 1, Y: y1 + 1}, geom.Point{X: x1 - d + 1, Y: y1 - 1}
+		default: // corner (x0, y1)
+			a, b = geom.Point{X: x0 + d + 1, Y: y1 + 1}, geom.Point{X: x0 + d - 1, Y: y1 - 1}
+		}
+		rect := geom.Polygon{{{X: x0, Y: y0}, {X: x1, Y: y0}, {X: x1, Y: y1}, {X: x0, Y: y1}, {X: x0, Y: y0}}}
+		var p geom.Geom
+		switch c % 3 {
+		case 0:
+			p = rect
+		case 1:
+			p = &geom.Bounds{Min: geom.Point{X: x0, Y: y0}, Max: geom.Point{X: x1, Y: y1}}
+		default:
+			p = geom.MultiPolygon{rect, {{{X: x1 + 2, Y: y0}, {X: x1 + 4, Y: y0}, {X: x1 + 3, Y: y1}}}}
+		}
+		if c < 4 {
+			emit(geom.LineString{a, b}, p)
+		} else {
+			emit(geom.MultiLineString{{a, b}}, p)
+		}
+	}
+}
+
+// longLines: line strings around the vertex counts 1024 / 1025 / 2048 / 2049 (and 1500, 3000), as
+// LS and as the one-member MLS: zig-zags inside a rectangle, a zig-zag over a long hole, and lines
+// whose ONLY inside part is the segment 1023->1024 (2047->2048).
+func longLines(r *vproto.Rng, emit func(l geom.Geom, p geom.Geom)) {
+	rect := func(x0, y0, x1, y1 float64) geom.Path {
+		return geom.Path{{X: x0, Y: y0}, {X: x1, Y: y0}, {X: x1, Y: y1}, {X: x0, Y: y1}, {X: x0, Y: y0}}
+	}
+	both := func(l geom.LineString, p geom.Geom) {
+		emit(l, p)
+		emit(geom.MultiLineString{l}, p)
+	}
+	for _, n := range []int{1024, 1025, 1500, 2049, 3000} {
+		l := make(geom.LineString, n)
+		lo, hi := float64(r.Range(1, 3)), float64(r.Range(7, 9))
+		for i := range l {
+			y := lo
+			if i%2 == 1 {
+				y = hi
+			}
+			l[i] = geom.Point{X: float64(i + 1), Y: y}
+		}
+		both(l, geom.Polygon{rect(0.5, 0.5, float64(n)+0.5, 10.5)})
+		if n <= 1500 {
+			// every segment passes over the hole: 2 pieces per segment
+			emit(l, geom.Polygon{rect(0.5, 0.5, float64(n)+0.5, 10.5), rect(0.75, 4.5, float64(n)+0.25, 5.5)})
+		}
+	}
+	for _, cut := range []int{1024, 2048} {
+		// cut vertices bunched up left of P, then one segment across P
+		l := make(geom.LineString, cut+1+r.Range(0, 3))
+		for i := range l {
+			l[i] = geom.Point{X: float64(i) / 4, Y: -3}
+		}
+		x0 := float64(cut)/4 + 2.5
+		for i := cut; i < len(l); i++ {
+			l[i] = geom.Point{X: x0 + 8 + float64(i-cut), Y: 6 + float64(i-cut)}
+		}
+		both(l, geom.Polygon{rect(x0, -4.5, x0+5, 8.5)})
+		both(l, &geom.Bounds{Min: geom.Point{X: x0, Y: -4.5}, Max: geom.Point{X: x0 + 5, Y: 8.5}})
+	}
+}
+
+// one call: the polygon is rebuilt over ONE flat backing array; the operands are compared with a
+// snapshot after the call.
+func clipOnce(l geom.Linear, pg geom.Polygonal) (geom.Linear, bool) {
+	before := vproto.GeomToks(l) + "|" + vproto.GeomToks(pg)
+	res := l.Clip(pg)
+	return res, before == vproto.GeomToks(l)+"|"+vproto.GeomToks(pg)
 }
 
 func impl() {
@@ -399,15 +544,61 @@ func impl() {
 		var res string
 		msg := vproto.Safe(func() {
 			p := vproto.NewParser(line)
-			if p.Next() != "clip" {
-				panic("harness: expected clip")
+			switch kind := p.Next(); kind {
+			case "clip":
+				l, _ := p.Geom().(geom.Linear)
+				if p.Next() != "|" {
+					panic("harness: expected |")
+				}
+				pg, _ := p.Geom().(geom.Polygonal)
+				r, same := clipOnce(l, shapes.Flat(pg))
+				if !same {
+					res = "mutated"
+					return
+				}
+				res = "ok " + vproto.GeomToks(r)
+			case "hclip":
+				// the polygon object of the first call is kept and overwritten in place for the
+				// following calls; all results are serialised only after the last call
+				var held geom.Polygonal
+				var results []geom.Linear
+				var ok []bool
+				for {
+					l, _ := p.Geom().(geom.Linear)
+					if p.Next() != "|" {
+						panic("harness: expected |")
+					}
+					pg, _ := p.Geom().(geom.Polygonal)
+					if held == nil {
+						held = shapes.Flat(pg)
+					} else {
+						held = shapes.CopyInto(held, pg)
+					}
+					r, same := clipOnce(l, held)
+					results = append(results, r)
+					ok = append(ok, same)
+					if p.Done() {
+						break
+					}
+					if p.Next() != ";;" {
+						panic("harness: expected ;;")
+					}
+				}
+				var sb strings.Builder
+				for i, r := range results {
+					if i > 0 {
+						sb.WriteString(" ;; ")
+					}
+					if !ok[i] {
+						sb.WriteString("mutated")
+					} else {
+						sb.WriteString("ok " + vproto.GeomToks(r))
+					}
+				}
+				res = sb.String()
+			default:
+				panic("harness: unknown case kind " + kind)
 			}
-			l, _ := p.Geom().(geom.Linear)
-			if p.Next() != "|" {
-				panic("harness: expected |")
-			}
-			pg, _ := p.Geom().(geom.Polygonal)
-			res = "ok " + vproto.GeomToks(l.Clip(pg))
 		})
 		if msg != "" {
 			res = "panic " + msg
